@@ -21,6 +21,9 @@ def sh(cmd, **kw):
 
 
 sh("git checkout -- beyond")
+head = subprocess.run("git -C /repo rev-parse HEAD", shell=True, capture_output=True, text=True).stdout.strip()
+sh(f"git checkout -q --detach {head}")  # evaluate against the current tree (fixes included)
+res["repo_head"] = head
 r = sh(f"/venv/bin/python demo_{k}.py", timeout=1800)
 res["demo_clean_rc"] = r.returncode
 a = sh(f"git apply mutant_{k}.diff")
